@@ -15,8 +15,30 @@ Agree ==
     \A a1 \in 0..Bound, b1 \in Stops, a2 \in 0..Bound, b2 \in Stops :
         (P!ValidSlice(a1, b1) /\ P!ValidSlice(a2, b2)) =>
             SliceThen(Slice(a1, b1), Slice(a2, b2)) = Slice(P!ThenA(a1, b1, a2, b2), P!ThenB(a1, b1, a2, b2))
+\* ... and the proved bound formulas are the specification's OpMin / OpMax for slices
+BoundsAgree ==
+    \A a \in 0..Bound, b \in Stops, tmin \in 0..Bound, tmax \in Stops :
+        (P!ValidSlice(a, b) /\ (tmax = -1 \/ tmin <= tmax)) =>
+            /\ OpMin(Slice(a, b), tmin, tmax, {"a"}) = P!SliceMin(a, b, tmin)
+            /\ OpMax(Slice(a, b), tmin, tmax, {"a"}) = P!SliceMax(a, b, tmax)
+\* the theorems themselves on all small instances (used as a fall-back when no SMT backend answers in time)
+BoundedThen ==
+    \A n \in 0..Bound, a1 \in 0..Bound, b1 \in Stops, a2 \in 0..Bound, b2 \in Stops :
+        (P!ValidSlice(a1, b1) /\ P!ValidSlice(a2, b2)) =>
+            LET lo1 == P!Lo(a1, n)  hi1 == P!Hi(a1, b1, n)  m == hi1 - lo1
+                lo2 == lo1 + P!Lo(a2, m)  hi2 == lo1 + P!Hi(a2, b2, m)
+                a == P!ThenA(a1, b1, a2, b2)  b == P!ThenB(a1, b1, a2, b2)
+            IN /\ P!ValidSlice(a, b)
+               /\ hi2 - lo2 = P!Hi(a, b, n) - P!Lo(a, n)
+               /\ (hi2 > lo2 => lo2 = P!Lo(a, n) /\ hi2 = P!Hi(a, b, n))
+BoundedBounds ==
+    \A n \in 0..Bound, a \in 0..Bound, b \in Stops, tmin \in 0..Bound, tmax \in Stops :
+        (P!ValidSlice(a, b) /\ tmin <= n /\ (tmax = -1 \/ n <= tmax)) =>
+            LET len == P!Hi(a, b, n) - P!Lo(a, n) IN
+            /\ P!SliceMin(a, b, tmin) <= len
+            /\ P!SliceMax(a, b, tmax) = -1 \/ len <= P!SliceMax(a, b, tmax)
 Init == x = 0
 Next == x' = x
 Spec == Init /\ [][Next]_x
-Inv == Agree
+Inv == Agree /\ BoundsAgree /\ BoundedThen /\ BoundedBounds
 =============================================================================
